@@ -7,17 +7,27 @@
 (* requests are refused is a total table, enumerated by TLC.                   *)
 EXTENDS Integers, Sequences
 
-Updaters == {"simple", "table"}
-Listing  == {"listed", "unlisted"}          \* does the table have a seed list for the stream
+Updaters == {"simple", "table", "chained", "custom", "shared"}
+   \* simple: SimpleStreamUpdater;  table: StreamSeedUpdater with its default fallback;
+   \* chained: StreamSeedUpdater whose fallback (set_fallback_stream_updater) is a second StreamSeedUpdater;
+   \* custom: StreamSeedUpdater whose fallback is a user-written StreamUpdater;
+   \* shared: ONE SimpleStreamUpdater object that has served other streams before (history must not matter)
+Listing  == {"listed", "unlisted", "empty", "fb_listed"}
+   \* listed: the table has a non-empty seed list for the stream;  empty: it has an EMPTY list (every r is beyond it);
+   \* fb_listed: only the fallback's table lists it (chained only);  unlisted: nobody lists it
 RClass   == {"negative", "first", "inside", "last", "beyond", "far", "illtyped"}
    \* replication number relative to a seed list of length 3: -1, 0, 1, 2, 3, 10**6, 1.5
 
 (* outcome of update_seed *)
 Outcome(u, l, rc) ==
     IF rc \in {"negative", "illtyped"} THEN "refused"
-    ELSE IF u = "table" /\ l = "listed" /\ rc \in {"beyond", "far"} THEN "refused"
-    ELSE IF u = "table" /\ l = "listed" THEN "from_list"
-    ELSE "computed"           \* the simple updater, or the fallback of the table updater
+    ELSE IF u \in {"table", "chained", "custom"} /\ l = "empty" THEN "refused"
+    ELSE IF u \in {"table", "chained", "custom"} /\ l = "listed" /\ rc \in {"beyond", "far"} THEN "refused"
+    ELSE IF u \in {"table", "chained", "custom"} /\ l = "listed" THEN "from_list"
+    ELSE IF u = "chained" /\ l = "fb_listed" /\ rc \in {"beyond", "far"} THEN "refused"
+    ELSE IF u = "chained" /\ l = "fb_listed" THEN "from_list"      \* the installed fallback decides
+    ELSE IF u = "custom" THEN "from_list"                            \* the user-written fallback decides (the harness knows its rule)
+    ELSE "computed"           \* the simple updater, or the default fallback (of the table or of the chained fallback)
 
 VARIABLE row
 Init == \E u \in Updaters, l \in Listing, rc \in RClass :
